@@ -253,6 +253,28 @@ pub fn g8() -> Vec<FamGrammar> {
     out
 }
 
+/// G10: alias names that collide with rule names. `foo` and `baz` are rules; three statements use `foo`, `baz`, `foo` under an
+/// alias drawn from {none, "foo", "baz", "bar"} each, a fourth uses `baz` plain. Among the 64 grammars: a rule that only ever
+/// appears under one alias (which then becomes its default alias) next to another rule aliased to the first rule's own name.
+pub fn g10() -> Vec<FamGrammar> {
+    let mut out = vec![];
+    let names = ["", "foo", "baz", "bar"];
+    for n1 in 0..4usize { for n2 in 0..4usize { for n3 in 0..4usize {
+        let use_ = |rule: &str, n: usize| if n == 0 || names[n] == rule { sym(rule) } else { alias(sym(rule), names[n], true) };
+        let g = G::new(&format!("g10_{}{}{}", n1, n2, n3))
+            .rule("top", rep(choice(vec![sym("a_stmt"), sym("b_stmt"), sym("c_stmt"), sym("d_stmt")])))
+            .rule("a_stmt", seq(vec![s("a"), use_("foo", n1)]))
+            .rule("b_stmt", seq(vec![s("b"), use_("baz", n2)]))
+            .rule("c_stmt", seq(vec![s("c"), use_("foo", n3)]))
+            .rule("d_stmt", seq(vec![s("d"), sym("baz")]))
+            .rule("foo", seq(vec![s("x"), s("x")]))
+            .rule("baz", seq(vec![s("y"), s("y")]))
+            .extras(vec![pat("\\s")]);
+        out.push(FamGrammar { id: g.name.clone(), g, alphabet: vec![lit("a"), lit("b"), lit("c"), lit("d"), lit("x"), lit("y")], has_ws_extras: true, kind: "G10", op_table: None });
+    } } }
+    out
+}
+
 /// G7: alias tables. Three productions `p1: '1' x x x`, `p2: '2' x x`, `p3: '3' x x x x`, each with at most one child carrying
 /// a per-production alias (position none/0/1/2), the alias named or anonymous, the rules declared in either order; `x`
 /// also occurs without alias (so the alias is not the symbol's default alias and lives in the per-production alias rows).
